@@ -1,6 +1,7 @@
 import FsnVerif.Proofs.DiffLemmas
 import FsnVerif.Proofs.DiffValid
 import FsnVerif.Proofs.DiffSelf
+import FsnVerif.Proofs.DiffGroups
 /-!
 # C20 — Test-support Diff produces a correct edit script, empty exactly on equality
 
@@ -20,10 +21,13 @@ What is proved (all inputs):
 * **an empty diff means equal texts** (`empty_diff_only_if_equal`, `Diff_empty_only_if_equal`): the
   grouped opcodes are empty only if every opcode is `equal`, and a valid all-equal script means
   the texts are equal — a differing pair can never pass silently.
-What is validated per case rather than proved for all inputs: the converse (equal texts give an
-empty diff — a failure here is a loud, spurious test failure, `example` below and the exhaustive
-differential stage), the rendering of hunks, and `DiffMatch`'s placeholder expansion / Go's `regexp`
-(harness only, partial).
+* **equal texts give an empty diff** (`equal_texts_empty_diff`, `Diff_empty_iff_equal`);
+* **the hunks are a correct patch** (`hunks_turn_a_into_b`, all inputs, every amount of context): cutting the
+  script into hunks loses nothing but the interior of `equal` runs.
+What is validated per case rather than proved for all inputs: the TEXT of a hunk (header arithmetic is
+`format_range_spec`; the `-have `/`+want ` prefixes and the lines themselves are compared byte for byte with
+the implementation on every generated pair, and the text is parsed back and applied by the harness), and
+`DiffMatch`'s placeholder expansion / Go's `regexp` (harness only, partial).
 -/
 namespace C20
 open Diff
@@ -57,6 +61,23 @@ theorem equal_texts_empty_diff (a : List Line) (hne : a ≠ []) : unifiedDiff a 
 /-- **`Diff` returns the empty string exactly when the two (trimmed) texts are equal** -/
 theorem Diff_empty_iff_equal (s t : List Char) : diff s t = [] ↔ s = t :=
   ⟨diff_nil_eq s t, fun h => h ▸ diff_self s⟩
+
+/-- **the hunks are a correct patch**: `GetGroupedOpCodes(n)` cuts the edit script into hunks with `n` lines of
+context; copying the first text up to each hunk, applying the hunk and copying what follows the last one
+(`applyGroups`: what `patch` does) yields the second text — for every pair of texts and every `n`. What
+the hunks leave out is exactly the interior of `equal` runs (`Proofs/DiffGroups`: `groups_apply`) -/
+theorem hunks_turn_a_into_b (a b : List Line) (n : Nat) :
+    applyGroups a b 0 (groupOpCodes n (getOpCodes a b)) = b := by
+  by_cases hne : getOpCodes a b = []
+  · have hv := getOpCodes_valid a b
+    rw [hne] at hv
+    simp only [validOps, validFrom, Bool.and_eq_true, beq_iff_eq] at hv
+    have ha : a = [] := List.eq_nil_of_length_eq_zero hv.1.symm
+    have hb : b = [] := List.eq_nil_of_length_eq_zero hv.2.symm
+    subst ha; subst hb
+    rw [hne]
+    cases n <;> simp [groupOpCodes, trimFirst, trimLast, groupStep, applyGroups]
+  · exact grouped_script_correct a b n _ (getOpCodes_valid a b) hne
 
 /-- leading context: after `trimFirst n` a leading `equal` opcode spans at most `n` lines (in both texts) -/
 theorem leading_context_le (n : Nat) (c : OpCode) (rest : List OpCode) (h : c.tag = 'e') :
@@ -94,5 +115,7 @@ example : validOps ta tb (getOpCodes ta tb) = true := by decide +kernel
 example : (groupOpCodes 3 (getOpCodes ta tb)).length = 2 := by decide +kernel
 example : applyOps ta tb (getOpCodes ta tb) = tb := edit_script_correct _ _ _ (by decide +kernel)
 example : unifiedDiff ta ta = [] := by decide +kernel
+example : (groupOpCodes 3 (getOpCodes ta tb)).length = 2 ∧ applyGroups ta tb 0 (groupOpCodes 3 (getOpCodes ta tb)) = tb :=
+  ⟨by decide +kernel, hunks_turn_a_into_b ta tb 3⟩
 
 end C20
